@@ -231,7 +231,9 @@ theorem pruneRecent_spec (L : Log) (d : Dir) (i0 a n : Nat) (I : Inv L d i0 a) (
       (pruneRecent L d n).effs = T.reverse.map (fun x => FsEff.unlink x.1) ++ [FsEff.dirsync] ++
         [.setLen y.1 (recsSize (y.2.recs.take (n - ny + 1))), .fsync y.1] ∧
       (pruneRecent L d n).dir = liveDir M y (n - ny + 1) ∧ (pruneRecent L d n).out = .ok 0 ∧
-      (pruneRecent L d n).log.endLive = n ∧ (pruneRecent L d n).log.startLive = L.startLive := by
+      (pruneRecent L d n).log.endLive = n ∧ (pruneRecent L d n).log.startLive = L.startLive ∧
+      (pruneRecent L d n).log = { L with segs := setLast (fun s => { s with max := n }) ((M ++ [y]).map metaOf),
+                                         head := some (recsSize (y.2.recs.take (n - ny + 1))), endLive := n } := by
   have hn0 : 0 < n := by have := I.ha; omega
   have hrec' : RecsFrom n a d := recsFrom_change_e _ n d a I.all_clean I.hrec
   have hend := I.hend
@@ -291,7 +293,7 @@ theorem pruneRecent_images (L : Log) (d : Dir) (i0 a n : Nat) (I : Inv L d i0 a)
     (s' : Nat) (hs' : 0 < s') (hsn : s' ≤ n) (k : Nat) :
     ∃ i0' a', Recoverable s' n i0' a' (applyEffs d ((pruneRecent L d n).effs.take k)) ∧
       liveOf s' n (applyEffs d ((pruneRecent L d n).effs.take k)) = liveOf s' n d := by
-  obtain ⟨M, T, y, ny, hd, hTdead, hny, hnye, hey, heffs, _, _, _, _⟩ := pruneRecent_spec L d i0 a n I hn1 hn2
+  obtain ⟨M, T, y, ny, hd, hTdead, hny, hnye, hey, heffs, _, _, _, _, _⟩ := pruneRecent_spec L d i0 a n I hn1 hn2
   rw [heffs]
   have hrec' : RecsFrom n a d := recsFrom_change_e _ n d a I.all_clean I.hrec
   have hend := I.hend
